@@ -1,6 +1,9 @@
 import Rangers.Basic.Hex
 import Rangers.Basic.Line
 import Rangers.Model.Bls14Verify
+import Rangers.Model.Bls14Hash
+import Rangers.Model.Bls14Jac
+import Rangers.Model.Bls14G2
 /-!
 Line-protocol driver for C14. One op per line; see harness/cmd/c14/main.go for the
 Go side. Anything that does not parse answers `bad-op` (never a default).
@@ -33,6 +36,23 @@ def pt? (h : String) : Option Pt := do
   | (.pt q, .ok _) => some q
   | _ => none
 
+/-- parse a G2 point supplied by the harness: 128 canonical bytes, or `00` for infinity -/
+def pt2? (h : String) : Option Pt2 := do
+  let b ← ofHex? h
+  if b == [0] then some .inf
+  else
+    if b.length != 128 then none
+    match g2Unmarshal .nil b with
+    | (.pt q, .ok _) => some q
+    | _ => none
+
+def pt2List? : List String → Option (List Pt2)
+  | [] => some []
+  | h :: t => do
+    let p ← pt2? h
+    let ps ← pt2List? t
+    pure (p :: ps)
+
 def g1ValStr : G1Val → String
   | .nil => "nil"
   | .pt q => toHex (g1Marshal q)
@@ -42,6 +62,14 @@ def sigReport (s : Sig) : String :=
 
 def pubReport (p : Pub) : String :=
   "valid=" ++ b01 (Pub.isValid p) ++ " ser=" ++ toHex (Pub.serialize p)
+
+/-- `H(m)` computed by the model itself (SHA-256 + try-and-increment) must equal the reference
+    point carried on the line; `none` otherwise. -/
+def hmChecked? (msgh hmh : String) : Option Pt := do
+  let m ← ofHex? msgh
+  let hm ← pt? hmh
+  let own ← hashToG1 m
+  if own == hm then some hm else none
 
 def verdictWith (peq : String) (f : PairEq → Verdict) : String :=
   let a := f (fun _ _ _ _ => true)
@@ -75,12 +103,16 @@ def step (_ : Unit) (line : String) : Unit × String :=
   | ["pkb", h] => match ofHex? h with
     | some b => pubReport (byteToPublicKey b)
     | none => "bad-op"
-  | ["verify", pkh, _msg, sigh, hmh, peq] => match ofHex? pkh, ofHex? sigh, pt? hmh with
-    | some pkb, some sigb, some hm => verdictWith peq (fun pe => verifyBytes pe hm pkb sigb)
+  | ["verify", pkh, msg, sigh, hmh, peq] => match ofHex? pkh, ofHex? sigh, pt? hmh with
+    | some pkb, some sigb, some _ => match hmChecked? msg hmh with
+      | some hm => verdictWith peq (fun pe => verifyBytes pe hm pkb sigb)
+      | none => "hm-mismatch"
     | _, _, _ => "bad-op"
-  | ["verify-raw", pkh, _msg, sigh, hmh, peq] => match ofHex? pkh, ofHex? sigh, pt? hmh with
-    | some pkb, some sigb, some hm =>
-      verdictWith peq (fun pe => verifySig pe hm (Pub.deserialize .nil pkb).1 (deserializeSign sigb))
+  | ["verify-raw", pkh, msg, sigh, hmh, peq] => match ofHex? pkh, ofHex? sigh, pt? hmh with
+    | some pkb, some sigb, some _ => match hmChecked? msg hmh with
+      | some hm =>
+        verdictWith peq (fun pe => verifySig pe hm (Pub.deserialize .nil pkb).1 (deserializeSign sigb))
+      | none => "hm-mismatch"
     | _, _, _ => "bad-op"
   | ["g1neg", a] => match pt? a with
     | some p => toHex (g1Marshal p.neg)
@@ -89,19 +121,60 @@ def step (_ : Unit) (line : String) : Unit × String :=
     | some p => toHex (g1Marshal p.double)
     | none => "bad-op"
   | ["g1add", a, b] => match pt? a, pt? b with
-    | some p, some q => toHex (g1Marshal (p.add q))
+    | some p, some q =>
+      let r := g1Marshal (p.add q)
+      if jMarshal (jAdd (Jac.ofPt p) (Jac.ofPt q)) == r then toHex r else "jacobian-affine-mismatch"
     | _, _ => "bad-op"
   | ["g1mul", a, k] => match pt? a, k.toNat? with
-    | some p, some k => toHex (g1Marshal (p.mul k))
+    | some p, some k =>
+      let r := g1Marshal (p.mul k)
+      if jMarshal (jMul (Jac.ofPt p) k) == r then toHex r else "jacobian-affine-mismatch"
     | _, _ => "bad-op"
-  | ["sign", k, _msg, hmh] => match k.toNat?, pt? hmh with
-    | some k, some hm => toHex (Sig.serialize (sign k hm))
+  | ["sign", k, msg, hmh] => match k.toNat?, pt? hmh with
+    | some k, some _ => match hmChecked? msg hmh with
+      | some hm =>
+        -- as executed (Jacobian) and as specified (affine); they are proved equal (Props/C14J)
+        let sj := jMarshal (signJ k hm)
+        if sj == Sig.serialize (sign k hm) then toHex sj else "jacobian-affine-mismatch"
+      | none => "hm-mismatch"
     | _, _ => "bad-op"
-  | ["h2p", _msg, dg] => match ofHex? dg with
-    | some d => if d.length != 32 then "bad-op" else
-      match hashToPoint d with
+  | ["h2p", msg, dg] => match ofHex? msg, ofHex? dg with
+    | some m, some d =>
+      if Sha.sha256 m != d then "sha-mismatch " ++ toHex (Sha.sha256 m) else
+      match hashToG1 m with
       | some p => toHex (g1Marshal p)
       | none => "fuel"
+    | _, _ => "bad-op"
+  | ["jlin", a, k1, b, k2] => match pt? a, k1.toNat?, pt? b, k2.toNat? with
+    -- Add(ScalarMult(a,k1), ScalarMult(b,k2)): both operands are non-normalised Jacobian values
+    | some p, some k1, some q, some k2 =>
+      toHex (jMarshal (jAdd (jMul (Jac.ofPt p) k1) (jMul (Jac.ofPt q) k2)))
+    | _, _, _, _ => "bad-op"
+  | ["jdbl", a, k] => match pt? a, k.toNat? with
+    -- Add(X, X) and Neg(X) for X = ScalarMult(a,k): the doubling branch of Add with z ≠ 1
+    | some p, some k =>
+      let x := jMul (Jac.ofPt p) k
+      toHex (jMarshal (jAdd x x)) ++ " " ++ toHex (jMarshal (jNeg x)) ++ " " ++ toHex (jMarshal (jAdd x (jNeg x)))
+    | _, _ => "bad-op"
+  | ["g2neg", a] => match pt2? a with
+    | some p => toHex (g2Marshal p.neg)
+    | none => "bad-op"
+  | ["g2add", a, b] => match pt2? a, pt2? b with
+    | some p, some q => toHex (g2Marshal (p.add q))
+    | _, _ => "bad-op"
+  | ["g2mul", a, k] => match pt2? a, k.toNat? with
+    | some p, some k => toHex (g2Marshal (p.mul k))
+    | _, _ => "bad-op"
+  | ["pkgen", k] => match k.toNat? with
+    | some k =>
+      let pk := generatePubkey k
+      -- serialise, and parse back the way every consumer does
+      pubReport pk ++ " back=" ++ pubReport (byteToPublicKey (Pub.serialize pk))
+    | none => "bad-op"
+  | "pkagg" :: hs => match pt2List? hs with
+    | some ps => match aggregatePubkeys ps with
+      | some q => toHex (g2Marshal q)
+      | none => "nil"
     | none => "bad-op"
   | ["skser", k] => match k.toNat? with
     | some k => toHex (scalarSerialize k)
